@@ -676,12 +676,14 @@ def _ucnt_model(cx, port, p, mod, c):
         return None
     res = {'buffering': None, 'counting': None, 'key': None, 'order': None, 'prefix': None}
     n = 0
+    OPAQUE = AX.Abs('Value', id='v', distinct=True)
     # further constructor parameters (a limit, a flag ...) are tried with "absent" and with 1
     import itertools
     extra_sets = list(itertools.product(*[[None, 1] for _ in init.args.args[2:]]))[:4]
     scenarios = [(False, (['x', '1'], ['x', '2'], ['x', '1'], ['x', '2'], ['x', '1'], [], ['x']), [[3, 'x', '1'], [2, 'x', '2'], [1], [1, 'x']]),
                  (True, (['x', '1'], ['x', '2'], ['x', '1']), None),
-                 (False, ([5], [3], [5], ['5']), [[2, 5], [1, 3], [1, '5']])]        # lone numeric columns (what numbers do as keys of the buffer)
+                 (False, ([5], [3], [5], ['5']), [[2, 5], [1, 3], [1, '5']]),        # lone numeric columns (what numbers do as keys of the buffer)
+                 (False, ([OPAQUE, 'a'], [OPAQUE, 'a'], ['b', OPAQUE]), [[2, OPAQUE, 'a'], [1, 'b', OPAQUE]])]   # a value only the record itself carries (a date, NaN ...)
     try:
         for (refuse_first, seq, want), extra in itertools.product(scenarios, extra_sets):
             selfv, sub = AX.Abs('Self'), AX.Abs('Sub')
@@ -696,8 +698,8 @@ def _ucnt_model(cx, port, p, mod, c):
                 if recv is sub and short == 'finish':
                     events.append('finish')
                     return None
-                if fname == 'JSON.stringify' and len(args) == 1 and isinstance(args[0], (list, tuple)) and all(isinstance(x, (str, int)) for x in args[0]):
-                    return _json.dumps(list(args[0]))
+                if fname == 'JSON.stringify' and len(args) == 1 and isinstance(args[0], (list, tuple)) and all(isinstance(x, (str, int)) or x is OPAQUE for x in args[0]):
+                    return _json.dumps(['\x00opaque' if x is OPAQUE else x for x in args[0]])      # the text form of the opaque value: not the value
                 if fname == 'JSON.parse' and len(args) == 1 and isinstance(args[0], str):
                     return _json.loads(args[0])
                 if short == 'iteritems6' and len(args) == 1 and isinstance(args[0], dict):
@@ -728,7 +730,10 @@ def _ucnt_model(cx, port, p, mod, c):
                 if len(forwarded) != 1:
                     res['order'] = res['order'] or 'the next writer refused the first counted record but {} record(s) were written to it'.format(len(forwarded))
                 continue
-            if forwarded == want:
+            if len(forwarded) == len(want) and all(isinstance(f_, list) and len(f_) == len(w_) and all((a_ is b_) if isinstance(b_, AX.Abs) else (not isinstance(a_, AX.Abs) and a_ == b_) for a_, b_ in zip(f_, w_)) for f_, w_ in zip(forwarded, want)):
+                continue
+            if any(x is OPAQUE for r_ in seq for x in r_) and not res['key']:
+                res['key'] = 'a record with a value that only the record itself carries (a date, NaN, an object) is emitted as {!r}: the counting writer rebuilds records from their key text instead of keeping the first occurrence'.format([['<value>' if x is OPAQUE else x for x in f_] if isinstance(f_, list) else f_ for f_ in forwarded])
                 continue
             got_recs = [f_[1:] if isinstance(f_, list) and f_ and isinstance(f_[0], int) else f_ for f_ in forwarded]
             if sorted(map(repr, forwarded)) == sorted(map(repr, want)):
